@@ -337,8 +337,14 @@ func driveC16(o opts) error {
 						return fmt.Sprintf("table %s: the cache holds %d rows, the database %d", t.Name, len(cache[t.Name]), len(want))
 					}
 					for u, r := range want {
-						if cr, ok := cache[t.Name][u]; !ok || !rowsEqual(cr, r) {
-							return fmt.Sprintf("table %s: row %s is missing or differs in the cache", t.Name, u)
+						cr, ok := cache[t.Name][u]
+						if !ok {
+							return fmt.Sprintf("table %s: row %s is missing in the cache", t.Name, u)
+						}
+						for c, v := range r {
+							if !v.Equal(cr[c]) {
+								return fmt.Sprintf("table %s: row %s column %s is %s in the cache, %s in the database", t.Name, u, c, cr[c].Key(), v.Key())
+							}
 						}
 					}
 				}
